@@ -129,6 +129,9 @@ func (f *MapField) GenReadFrom() (string, error) {
 				if typ != {{.M.ValField.TypeNum}} {
 					return nil, enc.ErrFailToParse{TypeNum: {{.M.KeyField.TypeNum}}, Err: enc.ErrUnrecognizedField{TypeNum: typ}}
 				}
+				if uint64(l) > uint64(reader.Length()-reader.Pos()) {
+					return nil, enc.ErrFailToParse{TypeNum: typ, Err: enc.ErrBufferOverflow}
+				}
 				{{.M.ValField.GenReadFrom}}
 				_ = value
 			}
